@@ -7,6 +7,7 @@ THEOREMS = [
     "Lou.C01.fwdRun_hinv", "Lou.C01.fwdPassAccesses_ok", "Lou.C01.driver_fwd_safe",
     "Lou.Contract.fwdRun_inv",
             "Lou.FwdOK.translate_contract", "Lou.ModelEngine.modelEngine_ok", "Lou.ModelEngine.model_driver_fwd_safe",
+            "Lou.ModelEngine.whole_call_fwd_safe", "Lou.ModelEngine.engineFor_ok", "Lou.FwdCOK.translateC_contract",
 ]
 
 CLAIM = dict(
